@@ -1036,11 +1036,15 @@ func (w *world) load(ids []int) {
 		}
 	}
 	if got, exp := tableString(after), tableString(want); got != exp {
-		w.fail("table-not-target", fmt.Sprintf("after %s the table is [%s], the stores demand [%s]", line, got, exp))
+		if len(after) > 12 || len(want) > 12 {
+			w.fail("table-not-target", fmt.Sprintf("after %s the table (%d symbols) differs from what the stores demand in %s", line, len(after), diffTables(after, want)))
+		} else {
+			w.fail("table-not-target", fmt.Sprintf("after %s the table is [%s], the stores demand [%s]", line, got, exp))
+		}
 	}
 	// oracle 2: notifications only for symbols that had to change; none when nothing changed
 	var expNotes []note
-	for id := 0; id < 64; id++ {
+	for id := 0; id < 128; id++ {
 		if !match(id) {
 			continue
 		}
@@ -2173,6 +2177,193 @@ func (w *world) startSessionPlain() *session {
 	return s
 }
 
+// ---------------------------------------------------------------- size family: large namespaces
+
+const bigValBase = 100
+
+// sizeCase: a LARGE namespace – 17–60 specs, one value shared by 17–40 of them (referenced by id
+// or by name), 17–40 values each referenced by one spec (by id) – so that the runtime's queries
+// (the $or of spec ids of a reload, the $or of value ids of a Load) return more than a handful of
+// documents. The shared value is updated, deleted and re-inserted, own values and specs change;
+// in a Load session every Load (nil and id-filters over ≥17 specs) is observed in full, in a
+// Watch+Reconcile session the whole table is compared with the target at quiescence, then again by
+// Load(nil) and a Load over an id-filter after the session.
+func sizeCase(c *lib.Ctx, rng *lib.RNG, sc *lib.Script, fails *[]lib.OracleFail, watch bool) string {
+	w := newWorld(c, sc, fails, 1)
+	defer w.close()
+	w.op("rt 1", "ok")
+	n := rng.Range(17, 60)
+	lim := func(x int) int {
+		if x > n {
+			return n
+		}
+		return x
+	}
+	k, m := rng.Range(17, lim(40)), rng.Range(17, lim(40))
+	perm := func() []int {
+		p := make([]int, n)
+		for i := range p {
+			p[i] = i + 1
+		}
+		for i := n - 1; i > 0; i-- {
+			j := rng.Intn(i + 1)
+			p[i], p[j] = p[j], p[i]
+		}
+		return p
+	}
+	shared := valDoc{id: bigValBase, ns: 1, name: 1, ver: rng.Range(1, 9)}
+	if rng.Bool() {
+		shared.id = bigValBase + rng.Range(20, 45) // not the smallest value id
+	}
+	specs := map[int]*specDoc{}
+	for id := 1; id <= n; id++ {
+		specs[id] = &specDoc{id: id, ns: 1, name: rng.Intn(4), kind: rng.Intn(4), ver: rng.Range(1, 9)}
+	}
+	var sharing []int
+	allByID := rng.Bool() // with no reference by name every value filter of a Load carries an id
+	for _, id := range perm()[:k] {
+		e := envEnt{key: 1, byID: allByID || rng.Chance(2, 3), ref: shared.id}
+		if !e.byID {
+			e.ref = shared.name
+		}
+		specs[id].env = append(specs[id].env, e)
+		sharing = append(sharing, id)
+	}
+	sort.Ints(sharing)
+	var own []valDoc
+	for j, id := range perm()[:m] {
+		v := valDoc{id: bigValBase + 1 + j, ns: 1, name: 0, ver: rng.Range(1, 9)}
+		if v.id == shared.id {
+			v.id = bigValBase
+		}
+		own = append(own, v)
+		specs[id].env = append(specs[id].env, envEnt{key: 2, byID: true, ref: v.id})
+	}
+	for _, id := range perm()[:rng.Intn(4)] { // a few specs of another namespace, with nothing to bind
+		if len(specs[id].env) == 0 {
+			specs[id].ns = 2
+		}
+	}
+	valuesFirst := rng.Bool()
+	putValues := func() {
+		w.insVal(shared)
+		for _, v := range own {
+			w.insVal(v)
+		}
+	}
+	if valuesFirst {
+		putValues()
+	}
+	for id := 1; id <= n; id++ {
+		w.insSpec(*specs[id])
+	}
+	if !valuesFirst {
+		putValues()
+	}
+	subset := func() []int { // an id-filter over at least 17 of the specs bound to the shared value
+		p := append([]int{}, sharing...)
+		for i := len(p) - 1; i > 0; i-- {
+			j := rng.Intn(i + 1)
+			p[i], p[j] = p[j], p[i]
+		}
+		p = p[:rng.Range(17, len(p))]
+		sort.Ints(p)
+		return p
+	}
+	var s *session
+	observe := func(what string) bool {
+		if !watch {
+			if rng.Bool() {
+				w.load(subset())
+			}
+			w.load(nil)
+			return true
+		}
+		got, ok := w.quiesce(10 * time.Second)
+		w.op("drain", "T "+got)
+		w.takeNotes()
+		if !ok {
+			w.fail("not-converged", fmt.Sprintf("large namespace (%d specs, %d bound to one value, %d values): 10 s after %s the table differs from what the stores demand in %s", n, k, m+1, what, diffTables(w.table(), w.target())))
+		}
+		return ok
+	}
+	if watch {
+		s = w.startSessionPlain()
+	} else {
+		w.load(nil)
+		w.load(nil)
+	}
+	ok := true
+	steps := []func() string{
+		func() string { shared.ver = shared.ver%9 + 1; w.updVal(shared); return "an update of the shared value" },
+		func() string { w.delVal(shared.id); return "the deletion of the shared value" },
+		func() string { shared.ver = shared.ver%9 + 1; w.insVal(shared); return "the re-insertion of the shared value" },
+		func() string {
+			for i := 0; i < 3; i++ {
+				v := &own[rng.Intn(len(own))]
+				v.ver = v.ver%9 + 1
+				w.updVal(*v)
+			}
+			return "updates of three values"
+		},
+		func() string {
+			for i := 0; i < 2; i++ {
+				w.delSpec(1 + rng.Intn(n))
+				d := w.specs[1+rng.Intn(n)]
+				if d.id != 0 {
+					d.ver = d.ver%9 + 1
+					w.updSpec(d)
+				}
+			}
+			return "two spec deletions and updates"
+		},
+		func() string { shared.ver = shared.ver%9 + 1; w.updVal(shared); return "another update of the shared value" },
+	}
+	for _, st := range steps {
+		if !ok {
+			break
+		}
+		ok = observe(st())
+	}
+	if watch {
+		s.cancel()
+		w.awaitReconcile(s, "its context was cancelled")
+		if ok {
+			w.load(subset())
+			w.load(nil)
+		}
+	}
+	c.Hit(fmt.Sprintf("size-case-watch-%v", watch))
+	if allByID {
+		c.Hit("size-case-all-references-by-id")
+	}
+	if n >= 40 {
+		c.Hit("size-case-40-or-more-specs")
+	}
+	return fmt.Sprintf("z:%v:%s", watch, strings.Join(w.trace, ";"))
+}
+
+// diffTables names the symbols in which two tables differ (large tables are unreadable in full).
+func diffTables(got, want map[int]symObs) string {
+	var ps []string
+	for id := 0; id < 128; id++ {
+		g, okG := got[id]
+		t, okT := want[id]
+		switch {
+		case okG && !okT:
+			ps = append(ps, fmt.Sprintf("symbol %d [%s] has no spec", id, g))
+		case !okG && okT:
+			ps = append(ps, fmt.Sprintf("spec %d has no symbol (due [%s])", id, t))
+		case okG && g.String() != t.String():
+			ps = append(ps, fmt.Sprintf("symbol %d is [%s], due [%s]", id, g, t))
+		}
+	}
+	if len(ps) > 6 {
+		ps = append(ps[:6], fmt.Sprintf("… %d more", len(ps)-6))
+	}
+	return strings.Join(ps, "; ")
+}
+
 // ---------------------------------------------------------------- corpus
 
 // replayCorpus runs hand-written op files: every line is executed on the implementation and
@@ -2243,7 +2434,7 @@ func replayCorpus(c *lib.Ctx, sc *lib.Script, fails *[]lib.OracleFail) {
 }
 
 func Run(c *lib.Ctx) {
-	c.Rule = "random histories (≤30 ops quick / ≤70 thorough) of insert (single documents and batches of 2–4 with a later document refused: id stored, id repeated in the batch, no id; in a directed family also a taken (namespace,name) under the unique index) / update / delete / Update with Upsert or $unset (documents addressed by id, id+namespace, name, namespace+name; namespace in the filter or only in $set; on existing and on absent documents) on the spec store (6 ids, kinds k0 k1 registered, k2 k3 unknown, 0–2 env entries by id or by name) and the value store (6 ids, 4 names) over 2–3 namespaces with Load(nil) / Load({id}) / Load({$or}) at random points, every Load observed (whole table + notifications) and compared with Uniflow.Runtime.step and with the harness's own target; plus Watch+Reconcile runs (bursts of 1–4 mutations) compared at quiescence – one to three watch sessions on the SAME runtime (a session ends by cancelling its context, sometimes followed by Runtime.Close or by another Reconcile call; the next starts with Watch – sometimes twice – and Load(nil); Watch may also be repeated in a live session) –, plus forced overlaps of a parked Load with the mutation and the other consumer (verif yield hook), plus a directed family (the same spec / the same bound value updated 2–3 times while the reconciler's Load for the first update is parked, with / without an unrelated event afterwards) and the same as a random ingredient of the Watch+Reconcile histories (1 round in 4), plus a second directed family (a spec that a parked Load – the reload for its value's update, or a user's Load(nil) – has read is deleted / deleted and re-inserted here or in another namespace / loses its value, the reconciler gets a moment, the Load is released) and its random ingredient (1 round in 4); non-trivial = at least two Loads and a non-empty spec store, distinct by full trace"
+	c.Rule = "random histories (≤30 ops quick / ≤70 thorough) of insert (single documents and batches of 2–4 with a later document refused: id stored, id repeated in the batch, no id; in a directed family also a taken (namespace,name) under the unique index) / update / delete / Update with Upsert or $unset (documents addressed by id, id+namespace, name, namespace+name; namespace in the filter or only in $set; on existing and on absent documents) on the spec store (6 ids, kinds k0 k1 registered, k2 k3 unknown, 0–2 env entries by id or by name) and the value store (6 ids, 4 names) over 2–3 namespaces with Load(nil) / Load({id}) / Load({$or}) at random points, every Load observed (whole table + notifications) and compared with Uniflow.Runtime.step and with the harness's own target; plus Watch+Reconcile runs (bursts of 1–4 mutations) compared at quiescence – one to three watch sessions on the SAME runtime (a session ends by cancelling its context, sometimes followed by Runtime.Close or by another Reconcile call; the next starts with Watch – sometimes twice – and Load(nil); Watch may also be repeated in a live session) –, plus forced overlaps of a parked Load with the mutation and the other consumer (verif yield hook), plus a directed family (the same spec / the same bound value updated 2–3 times while the reconciler's Load for the first update is parked, with / without an unrelated event afterwards) and the same as a random ingredient of the Watch+Reconcile histories (1 round in 4), plus a second directed family (a spec that a parked Load – the reload for its value's update, or a user's Load(nil) – has read is deleted / deleted and re-inserted here or in another namespace / loses its value, the reconciler gets a moment, the Load is released) and its random ingredient (1 round in 4); plus a size family (about 1 history in 10: 17–60 specs in the namespace, one value shared by 17–40 of them by id or by name, 17–40 values referenced by one spec each; the shared value updated / deleted / re-inserted, values and specs changed, in Load sessions with Load(nil) and id-filters over ≥17 specs and in Watch+Reconcile sessions); non-trivial = at least two Loads and a non-empty spec store, distinct by full trace"
 	c.Assumptions = []string{
 		"each store mutation, each Load and each consumption of one stream event is one atomic step of the model (store mutex; loadMu of the fixed runtime)",
 		"a spec and a value keep their namespace for life (a move is delete + insert); env entries reference a value by id or by name (anonymous entries and Config.Environment are C18's subject and are not generated)",
@@ -2303,6 +2494,11 @@ func Run(c *lib.Ctx) {
 			}
 		}
 	}
+	// size family (first part): large namespaces, one Load session and one Watch+Reconcile session up front
+	for _, watch := range []bool{false, true} {
+		sc.Begin()
+		c.Count(sizeCase(c, rng.Fork(), sc, &fails, watch))
+	}
 	replayCorpus(c, sc, &fails)
 	n := c.Scale(400, 4000)
 	for i := 0; i < n; i++ {
@@ -2313,6 +2509,15 @@ func Run(c *lib.Ctx) {
 	for i := 0; i < nw && len(fails) < 8; i++ { // every failing case waits out its patience: enough is enough
 		sc.Begin()
 		c.Count(watchCase(c, rng.Fork(), sc, &fails))
+	}
+	// size family: about one Load-session history in ten and one Watch+Reconcile history in ten is a large namespace
+	for i, nz := 0, c.Scale(40, 600); i < nz && len(fails) < 8; i++ {
+		sc.Begin()
+		c.Count(sizeCase(c, rng.Fork(), sc, &fails, false))
+	}
+	for i, nz := 0, c.Scale(6, 90); i < nz && len(fails) < 8; i++ {
+		sc.Begin()
+		c.Count(sizeCase(c, rng.Fork(), sc, &fails, true))
 	}
 	nr := c.Scale(10, 60)
 	for i := 0; i < nr; i++ {
